@@ -76,6 +76,63 @@ def run(ctx):
                   detail='j - i in [1,7]')
     ctx.minimum('C17-window', 18)
 
+    # ---- C17-range / C17-yearday by abstract interpretation on specification-chosen partitions
+    from ..absint import AI, Observer, St, Int, vjoin
+    from ..frontend import params_of
+    from ..expr import Folder
+
+    class _O(Observer):
+        def __init__(self):
+            self.narrow = []
+            self.subs = {}
+
+        def narrowing(self, ai, e, val, it, explicit, st):
+            if explicit:
+                self.narrow.append((e, val, it))
+
+        def subscript(self, ai, e, ext, idx, st):
+            c = self.subs.get(id(e))
+            self.subs[id(e)] = (e, ext, idx if c is None else c[2].join(idx))
+    G = ctx.G
+
+    def run_cs(fname_, month, day):
+        k_ = G.one(fname_)
+        u_, f_ = G.defs[k_]
+        o = _O()
+        assume = {'cctz::detail::civil_time<second_tag>::month': month, 'cctz::detail::civil_time<second_tag>::day': day,
+                  'cctz::detail::civil_time<day_tag>::month': month, 'cctz::detail::civil_time<day_tag>::day': day}
+        ai = AI(G, o, assume_returns=assume)
+        st = St()
+        st.refs[params_of(f_)[0]['id']] = ('CS',)
+        res = ai.analyse(k_, st)
+        out = None
+        for (v, s_) in res or ():
+            if isinstance(v, Int):
+                out = v if out is None else out.join(v)
+        return out, o, f_
+    out, o, fw = run_cs('cctz::detail::get_weekday', Int(1, 12), Int(1, 31))
+    ctx.check(not o.narrow, 'C17-range', 'get_weekday: no value-changing narrowing cast for any 64-bit year', o.narrow[0][0] if o.narrow else fw,
+              'the year is narrowed (to %s) before it is reduced: years beyond that type get the weekday of a different '
+              'year of the 400-year cycle' % (o.narrow[0][2],) if o.narrow else '', construct='range:weekday:narrow')
+    for (e, ext, idx) in o.subs.values():
+        ctx.check(idx.lo >= 0 and idx.hi < ext, 'C17-range', 'get_weekday table subscript %s within [0,%d)' % (idx, ext), e,
+                  'a weekday table of extent %d is subscripted with %s for some date' % (ext, idx), construct='range:weekday:sub:%d' % ext,
+                  detail=str(idx))
+    ctx.check(len(o.subs) >= 2, 'C17-range', 'both get_weekday tables are subscripted', fw, 'found %d' % len(o.subs), construct='range:weekday:count')
+    from .tables import GREG
+    prefix = [sum(GREG[:m - 1]) for m in range(1, 13)]
+    for m in range(1, 13):
+        ln = GREG[m - 1] + (1 if m == 2 else 0)
+        got, o2, fy = run_cs('cctz::detail::get_yearday', Int(m, m), Int(1, ln))
+        lo = prefix[m - 1] + 1
+        hi = prefix[m - 1] + ln + (1 if m > 2 else 0)
+        ctx.check(isinstance(got, Int) and (got.lo, got.hi) == (lo, hi), 'C17-yearday',
+                  'get_yearday over month %d (days 1..%d, any year) ranges over %d..%d' % (m, ln, lo, hi), fy,
+                  'the ordinals of month %d range over %s; the calendar gives [%d,%d] (a leap day shifts only the months after '
+                  'February)' % (m, got, lo, hi), construct='yearday:%d' % m, detail=str(got))
+    ctx.minimum('C17-range', 4)
+    ctx.minimum('C17-yearday', 12)
+
     # ---- C17-months
     check_month_tables(ctx, 'C17-months', civil=True, tz=False)
     ctx.minimum('C17-months', 45)
